@@ -23,6 +23,7 @@ import (
 	"fmt"
 	"os"
 	"path/filepath"
+	"runtime/debug"
 	"runtime/pprof"
 	"sort"
 	"strings"
@@ -128,7 +129,7 @@ func expect(s lsheet) *sheetExp {
 	var cells []ecell
 	for _, lc := range s.cells {
 		c, r, _ := xlsxw.ParseRef(lc.addr)
-		e := ecell{r: r, c: c, want: lc.value, kind: lc.kind.String()}
+		e := ecell{r: r, c: c, want: lc.value, raw: lc.value, kind: lc.kind.String()}
 		for _, m := range s.merges {
 			c1, r1, c2, r2, _ := xlsxw.ParseRange(m)
 			if c >= c1 && c <= c2 && r >= r1 && r <= r2 && !(c == c1 && r == r1) {
@@ -324,12 +325,12 @@ func yn(b bool) string {
 	return "n"
 }
 
-// features derives the descriptor tokens that findings can match on.
+// features derives the descriptor tokens that findings can match on: irich (an inline rich-text
+// cell is present), stray (a cell with a value lies inside a merged region, not at its top-left),
+// ws (a value contains a line break / tab).
 func features(sheets []lsheet) (irich, stray bool, ws string) {
 	ws = "-"
-	for si, s := range sheets {
-		ex := expect(s)
-		_ = si
+	for _, s := range sheets {
 		for _, c := range s.cells {
 			if c.kind == xlsxw.InlineRich {
 				irich = true
@@ -337,10 +338,14 @@ func features(sheets []lsheet) (irich, stray bool, ws string) {
 			if c.ws != "" {
 				ws = c.ws
 			}
-		}
-		for _, e := range ex.cells {
-			if e.covered {
-				stray = true
+			if len(s.merges) > 0 && c.kind != xlsxw.Blank {
+				p := pos(c.addr)
+				for _, m := range s.merges {
+					c1, r1, c2, r2, _ := xlsxw.ParseRange(m)
+					if p[1] >= c1 && p[1] <= c2 && p[0] >= r1 && p[0] <= r2 && !(p[1] == c1 && p[0] == r1) {
+						stray = true
+					}
+				}
 			}
 		}
 	}
@@ -436,6 +441,9 @@ func run(e *harness.Env) {
 	}
 	tmp := harness.Scratch()
 	defer os.RemoveAll(tmp)
+	// many short-lived parses: collect less often (the live heap is a few MB; a 702 x 200 grid is 20 MB)
+	debug.SetGCPercent(1000)
+	debug.SetMemoryLimit(3 << 30)
 	if pf := os.Getenv("C17_PROF"); pf != "" { // development only
 		f, _ := os.Create(pf)
 		pprof.StartCPUProfile(f)
@@ -456,11 +464,19 @@ func run(e *harness.Env) {
 	}
 }
 
-func baseDesc(space string, sheets []lsheet, order string, o wbopts, extra ...interface{}) string {
+// baseDesc builds the canonical "k=v k=v" descriptor (same shape as harness.D; all values are
+// space-free by construction) without the per-value allocations, because every worker computes
+// the descriptor of every case.
+func baseDesc(space string, sheets []lsheet, order string, o wbopts, extra ...string) string {
 	irich, stray, ws := features(sheets)
-	kv := []interface{}{"space", space, "sheets", len(sheets)}
+	var b strings.Builder
+	b.Grow(160)
+	b.WriteString("space=")
+	b.WriteString(space)
+	fmt.Fprintf(&b, " sheets=%d", len(sheets))
 	for i, s := range sheets {
-		kv = append(kv, fmt.Sprintf("s%d", i+1), cellsToken(s.cells))
+		fmt.Fprintf(&b, " s%d=", i+1)
+		b.WriteString(cellsToken(s.cells))
 	}
 	merge := "-"
 	for _, s := range sheets {
@@ -468,9 +484,11 @@ func baseDesc(space string, sheets []lsheet, order string, o wbopts, extra ...in
 			merge = strings.Join(s.merges, ",")
 		}
 	}
-	kv = append(kv, "order", order, "merge", merge, "stray", yn(stray), "irich", yn(irich), "ws", ws)
-	kv = append(kv, extra...)
-	return harness.D(kv...)
+	b.WriteString(" order=" + order + " merge=" + merge + " stray=" + yn(stray) + " irich=" + yn(irich) + " ws=" + ws)
+	for i := 0; i+1 < len(extra); i += 2 {
+		b.WriteString(" " + extra[i] + "=" + extra[i+1])
+	}
+	return b.String()
 }
 
 // ---- (cells) subsets x kinds x orders --------------------------------------------------------------
